@@ -329,8 +329,8 @@ def run_check(modname, tier, seed, only_sub=None):
             elif res is not None:
                 violations.append((sub.name, w['case'], res.sig, res.msg))
             # witness passes now: silent (finding no longer reproduces)
-        else:  # fixed: must stay fixed
-            if res is not None:
+        else:  # fixed: must stay fixed (a listed open finding met on the way is not a regression of this one)
+            if res is not None and not (res.sig in known and res.sig != f['signature']):
                 violations.append((sub.name, w['case'], res.sig, 'regression of fixed finding ' + f['id'] + ': ' + res.msg))
     rdir = os.path.join(VERIF, 'replays', pid)
     nreplays = 0
